@@ -11,6 +11,14 @@ WHICH = {"eventmonitor_init": ("verify_eventmonitor_init", "amaranth_soc.csr.eve
                        ["gpio.Peripheral.__init__::registers-added-in-the-order-Mode-Input-Output-SetClr",
                         "gpio.Peripheral.__init__::bus-carries-the-bridge's-memory-map",
                         "gpio.Peripheral.__init__::accepts-only-valid-parameters"]),
+         "wb_decoder_init": ("verify_wb_decoder_init", "amaranth_soc.wishbone.bus.Decoder.__init__",
+                             ["wishbone.bus.Decoder.__init__::signature-built-from-the-arguments-as-given", "wishbone.bus.Decoder.__init__::map-geometry-matches-the-bus",
+                              "wishbone.bus.Decoder.__init__::feature-iterable-not-consumed-by-the-constructor"]),
+         "wb_arbiter_init": ("verify_wb_arbiter_init", "amaranth_soc.wishbone.bus.Arbiter.__init__",
+                             ["wishbone.bus.Arbiter.__init__::signature-built-from-the-arguments-as-given",
+                              "wishbone.bus.Arbiter.__init__::feature-iterable-not-consumed-by-the-constructor"]),
+         "csr_decoder_init": ("verify_csr_decoder_init", "amaranth_soc.csr.bus.Decoder.__init__",
+                              ["csr.bus.Decoder.__init__::signature-built-from-the-arguments-as-given", "csr.bus.Decoder.__init__::map-geometry-matches-the-bus"]),
          "sram_init": ("verify_sram_init", "amaranth_soc.wishbone.sram.WishboneSRAM.__init__",
                        ["wishbone.sram.WishboneSRAM.__init__::bus-addresses-exactly-the-granules-of-the-map",
                         "wishbone.sram.WishboneSRAM.__init__::accepts-only-valid-parameters",
